@@ -46,7 +46,7 @@ class StreamRun(Job):
     max_seconds = 1200
 
     def __init__(self, frontend, n, windows, axes=("z", "lat", "lon"), streams=1, tests=("probe_test",), sorted_times=None,
-                 canary=None, prop="C05", offdim=None, wbound="timestamp", dcarrier="ndarray"):
+                 canary=None, prop="C05", offdim=None, wbound="timestamp", dcarrier="ndarray", nat=False):
         self.frontend, self.n, self.windows, self.axes, self.streams, self.tests = frontend, n, tuple(windows), tuple(axes), streams, tuple(tests)
         self.sorted_times = (frontend == "xarray") if sorted_times is None else sorted_times
         self.canary = canary
@@ -61,11 +61,13 @@ class StreamRun(Job):
         # "masked": the data arrive as a numpy masked array - a missing observation is a masked element with an arbitrary
         # (symbolic) value underneath, which must not be judged
         self.dcarrier = dcarrier
+        self.nat = nat       # rows of the time axis may be NaT: such a row satisfies no window
         self.name = (f"stream[{frontend}] n={n} windows={'+'.join(windows)} axes={','.join(axes) or '-'} streams={streams} "
                      f"tests={'+'.join(tests)}{' sorted' if self.sorted_times else ''}"
                      f"{' +variable-on-another-dimension-' + offdim if offdim else ''}"
                      f"{' window-bounds-as-' + wbound if wbound != 'timestamp' else ''}"
-                     f"{' data-as-masked-array' if dcarrier == 'masked' else ''}") + (f" CANARY={canary}" if canary else "")
+                     f"{' data-as-masked-array' if dcarrier == 'masked' else ''}{' NaT-rows' if nat else ''}") + (
+            f" CANARY={canary}" if canary else "")
         if canary:
             self.expect_canary_sat = True
             self.validate_witnesses = False
@@ -81,7 +83,7 @@ class StreamRun(Job):
         if self.sorted_times:
             S.t = V.times_increasing("t", n, max_step=2 ** 20)
         else:
-            S.t = [V.time(f"t{i}") for i in range(n)]
+            S.t = [V.time(f"t{i}", nat=self.nat) for i in range(n)]
             for a, b in itertools.combinations(S.t, 2):
                 V.assume(mk_not(mk_eq(a.s, b.s)))
         S.data = [V.floats(f"d{s}_", n, nan=True) for s in range(self.streams)]
@@ -215,6 +217,8 @@ class StreamRun(Job):
     def _in_window(self, S, k, r):
         st, en = S.win[k]
         c = TRUE
+        if (st is not None or en is not None) and self.nat:
+            c = mk_not(S.t[r].nat)         # NaT compares False with every bound
         if st is not None:
             c = mk_and(c, S.t[r].s >= st.s)
         if en is not None:
@@ -495,9 +499,15 @@ def jobs(tier):
         out.append(StreamRun(fe, n, ("closed", "closed"), axes=()))
         out.append(StreamRun(fe, n, ("end", "none"), axes=()))
         out.append(StreamRun(fe, n, ("closed",), axes=()))
+        # only some of the auxiliary axes present (a missing middle one must not shift the others)
+        out.append(StreamRun(fe, n, ("closed",), axes=("lat", "lon")))
+        out.append(StreamRun(fe, n, ("none",), axes=("z", "lon")))
         out.append(StreamRun(fe, n, ("start",), axes=("z",), tests=("probe_test", "spike_test")))
         if fe != "qcconfig":
             out.append(StreamRun(fe, 3, ("closed",), axes=(), tests=("rate_of_change_test",)))
+        if fe in ("numpy", "numpy_dict", "pandas", "qcconfig"):
+            out.append(StreamRun(fe, n, ("closed",), axes=(), nat=True, sorted_times=False))
+            out.append(StreamRun(fe, n, ("end", "start"), axes=(), nat=True, sorted_times=False))
         if fe in ("numpy", "numpy_dict", "qcconfig"):      # (a DataFrame / Dataset column cannot hold a masked array)
             out.append(StreamRun(fe, n, ("closed",), axes=(), tests=("spike_test",), dcarrier="masked"))
             out.append(StreamRun(fe, 3, ("start",), axes=(), tests=("spike_test",), dcarrier="masked"))
